@@ -184,3 +184,38 @@ Print Assumptions C12_conc_remove_stop_if_reservations_dropped_refuted.
 
 Example C12_conc_example_instances : length remove_instances = 32 /\ length make_instances = 32.
 Proof. vm_compute. split; reflexivity. Qed.
+
+(* ================= calls through a proxy racing with remove_rpc_object / stop ================================ *)
+(* Interleaving model of CallModel.v: callers, the thread that removes the object / stops the context, the object's
+   worker thread.  In the model the hand-over of a request (running check + push into the worker's queue) is ONE region
+   under _stop_lock.  The theorems hold for every interleaving of the listed instances: remove and stop (with its sweep
+   of unanswered futures), each with 1 and 2 concurrent callers. *)
+Require Import QV.C12.CallModel QV.C12.CallProofs.
+
+(* in every reachable state: an accepted request without outcome is in the worker's queue; the queue of an ended worker
+   is empty; a request is executed at most once and a value implies exactly one execution; when everybody has finished
+   every call has an outcome, the handler is gone, the object was released exactly once; until then somebody can move *)
+Theorem C12_call_vs_stop : forall c k, In (c, k) call_instances ->
+  forall s, CallProofs.Reachable c k s ->
+    accepted_pending s = true /\ ended_worker_queue_empty s = true /\ exec_ok s = true /\
+    (all_done s = true -> CallModel.good_final s = true) /\ (all_done s = false -> CallModel.succ c s <> []).
+Proof. exact call_vs_stop. Qed.
+Print Assumptions C12_call_vs_stop.
+
+(* a request accepted by handle_message is executed or answered with an error reply before the worker thread ends:
+   once the worker has ended no accepted request is without outcome (none is left in the queue of an ended worker) *)
+Theorem C12_accepted_request_answered : forall c k, In (c, k) call_instances ->
+  forall s, CallProofs.Reachable c k s -> walive s = false ->
+  forall i, i < length (cs s) -> CallModel.pc (getc s i) = CWait -> res (getc s i) <> None.
+Proof. exact accepted_request_answered. Qed.
+Print Assumptions C12_accepted_request_answered.
+
+(* if the push happens outside the region of the running check (hand-over not serialised against stop): a reachable
+   state in which remove_rpc_object has returned, the worker has ended, the request sits in its queue, the call has no
+   outcome and nobody can move *)
+Theorem C12_handover_outside_region_refuted :
+  exists s, CallProofs.Reachable (CallModel.mkCfg false false) 1 s /\
+    sp s = SDone /\ walive s = false /\ queue s = [0] /\ CallModel.pc (getc s 0) = CWait /\ res (getc s 0) = None /\
+    CallModel.succ (CallModel.mkCfg false false) s = [].
+Proof. exact handover_outside_region_refuted. Qed.
+Print Assumptions C12_handover_outside_region_refuted.
